@@ -8,7 +8,7 @@ CONSTANTS
   Roles = {"server", "client"}
   Modes = {"receptor", "dns", "dns_noname"}
   StreamSrcs <- StreamSrcsQuick
-  KF_ColonSplit = TRUE
+  KF_ColonSplit = FALSE
   DumpFile = "vectors.ndjson"
 INVARIANTS
   AcceptImpliesAll
@@ -19,3 +19,4 @@ INVARIANTS
   ReceptorModeIgnoresDNS
   PinsOnlyRestrict
   StreamBindsSource
+  StreamCodeIsProp
